@@ -124,6 +124,25 @@ class CurveDriver(hist.Driver):
                      f"hash unchanged but settings {sorted(ch)} changed")
         if op[0] == "F" and obs["ok"] and not post_has:
             viol("fit-without-result", "fit_model returned without results")
+        if op[0] == "F" and obs["ok"]:
+            # "fits with changing keyword arguments": what was handed to a
+            # fit that went through is what is stored afterwards
+            for k, v in op[1].items():
+                val = cn.norm(ops.materialize(v))
+                if k == "segment":
+                    val = cn.norm({"approach": 0, "retract": 1}.get(v, v))
+                if k == "range_x" and idnt.fit_properties.get(
+                        "optimal_fit_edelta") and "range_x" in \
+                        pre["settings"] and cn.norm(
+                            idnt.fit_properties["range_x"][1]) == val[1]:
+                    continue    # documented: lower bound ignored
+                if k == "params_initial" and v is None:
+                    continue    # None = "estimate them"
+                if post_settings.get(k) != val:
+                    viol("keyword-not-stored", f"fit_model({k}=...) went "
+                         f"through, but the stored {k} is "
+                         f"{_show(idnt.fit_properties.get(k))}, not the "
+                         "value that was passed")
         if op[0] in ("R", "M") and post_settings != pre["settings"]:
             viol("settings-drift", f"{op[0]} changed stored settings")
         return out
@@ -454,6 +473,54 @@ class InitialParams(CurveDriver):
     ]
 
 
+PIPELINE_KEYS = ("preprocessing", "preprocessing_options")
+
+
+class PipelineEdits(CurveDriver):
+    """direct edits of the two settings that describe the preprocessing
+    pipeline.  FitProperties has no reference to the curve, so such an edit
+    cannot re-run the pipeline (known finding D28, same root as D13): from
+    the edit until the next preprocessing request the data do not belong to
+    the stored pipeline.  Violations of `stale-result` in that window are
+    labelled (site / witness), everything else is judged as usual."""
+    name = "pipeline_edits"
+    ops = [
+        ["P", P1, {}, False],
+        ["P", P1, O_FCL, False],
+        F(),
+        F(weight_cp=0),
+        F(preprocessing=P1),
+        ["E", "preprocessing_options", O_FCL],
+        ["E", "preprocessing_options", {}],
+        ["E", "preprocessing", P2],
+        ["E", "weight_cp", 0],
+        ["M"],
+    ]
+
+    def apply(self, w, op):
+        obs = super().apply(w, op)
+        if op[0] == "E" and op[1] in PIPELINE_KEYS and obs["ok"]:
+            fp = w.idnt.fit_properties
+            w.pipeline_edited = (
+                cn.norm(fp.get("preprocessing")),
+                cn.norm(fp.get("preprocessing_options"))) != (
+                cn.norm(w.idnt.preprocessing),
+                cn.norm(w.idnt.preprocessing_options))
+        elif op[0] == "P" or (op[0] == "F" and any(k in op[1]
+                                                   for k in PIPELINE_KEYS)):
+            w.pipeline_edited = False
+        return obs
+
+    def check_state(self, w, hops):
+        out = super().check_state(w, hops)
+        if getattr(w, "pipeline_edited", False):
+            for v in out:
+                if v["clause"] == "stale-result":
+                    v["site"] = "state:pipeline-key-edited-directly"
+                    v["witness"] = "after-E-on-pipeline-key:" + v["witness"]
+        return out
+
+
 class Recorded(CurveDriver):
     """the recorded JPK curve, shallower"""
     name = "recorded"
@@ -477,7 +544,7 @@ class Recorded(CurveDriver):
             "/repo/tests/data/fmt-jpk-fd_spot3-0192.jpk-force")[0]
 
 
-DRIVERS = {d.name: d() for d in (Broad, Plateau, GcfRel, Failures,
+DRIVERS = {d.name: d() for d in (PipelineEdits, Broad, Plateau, GcfRel, Failures,
                                  FailuresInnate, InitialParams, Recorded)}
 
 
@@ -498,10 +565,11 @@ def run(tier):
     plan = {
         "quick": [("broad", 3), ("plateau", 3), ("gcf_relative", 3),
                   ("failures", 4), ("failures_innate", 3),
-                  ("initial_params", 3)],
+                  ("initial_params", 3), ("pipeline_edits", 3)],
         "thorough": [("broad", 4), ("plateau", 5), ("gcf_relative", 5),
                      ("failures", 6), ("failures_innate", 5),
-                     ("initial_params", 4), ("recorded", 3)],
+                     ("initial_params", 4), ("recorded", 3),
+                     ("pipeline_edits", 5)],
     }[tier]
     sc = hist.selfcheck_start(__name__, "broad", [1, 14, 12, 25])
     c03_store.run_store(rep, tier)
